@@ -3,10 +3,12 @@
    "-" = empty string) and prints one outcome line per op:
        <ret> <errno> <payload> <digest root> <digest aux>
    ops: set D | del D | get D | type D | count D | keys D | getsub D | setsub D | subset D D2 |
-        subdel D D2 | copyout D | copyin D | quote K | reset |
+        subdel D D2 | copyout D | copyin D | copywithin D D2 | quote K | reset |
         yamlrt      (C14: aux := import (ideal_rt (export root)); prints both digests)
         yamltree    (C14: prints the abstract YAML tree the model exports for root)
         yamlinto    (C14: aux := import_document (ideal_rt (export root)) aux, aux may hold a tree)
+        ydocimp Y   (C14: root := import_public Y root; Y = !syntax | !empty | a document tree in the notation of
+                    ydigest / the harness's ydump, styles p plain, l literal, anything else non-plain)
         hset K | hlook K | hget K | hdel K | hreset     (C13: coq/PropTree/HashModel.v, h_step with h := crc32c, on a
                     separate table state; prints  <found 1/0> H:<size>,<count>|<bucket>:<hexkey>,...;...)
    The conversions below (int <-> extracted N / Z / nat, hex) are trusted glue. *)
@@ -42,6 +44,44 @@ let rec ydigest (y : ynode) : string =
   | YScalar (v, st) -> "s" ^ style st ^ hex v
   | YMapping kv -> "m{" ^ String.concat ";" (List.map (fun (k, v) -> ydigest k ^ "=" ^ ydigest v) kv) ^ "}"
   | YSequence l -> "q[" ^ String.concat ";" (List.map ydigest l) ^ "]"
+let parse_y (s : string) : ynode =
+  let pos = ref 0 in
+  let ishex c = (c >= '0' && c <= '9') || (c >= 'a' && c <= 'f') in
+  let rec node () =
+    match s.[!pos] with
+    | 's' ->
+      let stc = s.[!pos + 1] in
+      let j = ref (!pos + 2) in
+      while !j < String.length s && ishex s.[!j] do incr j done;
+      let h = String.sub s (!pos + 2) (!j - !pos - 2) in
+      pos := !j;
+      YScalar ((if h = "" then [] else unhex h), (match stc with 'p' -> YPlain | 'l' -> YLiteral | 'a' -> YAny | _ -> YDouble))
+    | 'm' ->
+      pos := !pos + 2;
+      let items = ref [] in
+      while s.[!pos] <> '}' do
+        let k = node () in
+        if s.[!pos] <> '=' then failwith "ydigest: = expected";
+        incr pos;
+        let v = node () in
+        items := (k, v) :: !items;
+        if s.[!pos] = ';' then incr pos
+      done;
+      incr pos;
+      YMapping (List.rev !items)
+    | 'q' ->
+      pos := !pos + 2;
+      let items = ref [] in
+      while s.[!pos] <> ']' do
+        items := node () :: !items;
+        if s.[!pos] = ';' then incr pos
+      done;
+      incr pos;
+      YSequence (List.rev !items)
+    | _ -> failwith "ydigest: bad node" in
+  let y = node () in
+  if !pos <> String.length s then failwith "ydigest: trailing text";
+  y
 let hdump ((t, c) : hstate) : string =
   let parts = List.filter (fun x -> x <> "") (List.mapi (fun i ch ->
       if ch = [] then "" else Printf.sprintf "%d:%s" i (String.concat "," (List.map hex ch))) t) in
@@ -72,6 +112,11 @@ let () =
         let (r, ok) = import_document (yaml_rt_ideal y) !st.st_aux in
         st := { st_root = !st.st_root; st_aux = r };
         Printf.printf "%d 0 - %s %s\n" (if ok then 0 else -1) (digest !st.st_root) (digest r)
+      | ["ydocimp"; y] ->
+        let l = if y = "!syntax" then YSyntaxError else if y = "!empty" then YEmptyDocument else YDocument (parse_y y) in
+        let (r, ok) = import_public l !st.st_root in
+        st := { st_root = r; st_aux = !st.st_aux };
+        Printf.printf "%d 0 - %s %s\n" (if ok then 0 else -1) (digest r) (digest !st.st_aux)
       | ["yamltree"] -> Printf.printf "0 0 Y:%s %s %s\n" (ydigest (yaml_export !st.st_root)) (digest !st.st_root) (digest !st.st_aux)
       | opn :: args ->
         let a i = unhex (List.nth args i) in
@@ -80,6 +125,7 @@ let () =
             | "count" -> OCount (a 0) | "keys" -> OKeys (a 0) | "getsub" -> OGetSub (a 0)
             | "setsub" -> OSetSub (a 0) | "subset" -> OSubSet (a 0, a 1) | "subdel" -> OSubDel (a 0, a 1)
             | "copyout" -> OCopyOut (a 0) | "copyin" -> OCopyIn (a 0) | "quote" -> OQuote (a 0)
+            | "copywithin" -> OCopyWithin (a 0, a 1)
             | _ -> failwith ("bad op " ^ opn)) in
         let (s', out) = step !st o in
         st := s';
